@@ -20,7 +20,10 @@ for p in props:
         continue
     mod = importlib.import_module(f"harness.props.{pid.lower()}")
     level = "proof" if (getattr(mod, "LEVEL", "") == "proof" and getattr(mod, "THEOREMS", [])) else "translation_validation"
-    c = CLAIMS[pid]
+    c = dict(CLAIMS[pid])
+    planned = getattr(mod, "PLANNED", [])
+    c["text"] = c["text"].replace("{n}", str(len(getattr(mod, "THEOREMS", [])))).replace(
+        "{planned}", "; ".join(planned) if planned else "none recorded")
     checks.append({
         "property_id": pid,
         "quick_cmd": f"./check {pid} --tier quick",
